@@ -177,7 +177,10 @@ def _hash_check(pid, tier, seed, replay, per_quick, per_thorough, rejects, rule_
 @reg("C06")
 def check_c06(tier, seed, replay=None, selftest=False):
     chk = _hash_check("C06", tier, seed, replay, 24, 400, 0.15, ", with mid-stream flushes, drain epilogue and a few refused calls")
-    return chk if isinstance(chk, int) else chk.finish()
+    if isinstance(chk, int):
+        return chk
+    lane_level(chk, build.build_driver("hash", HASH_SRCS), tier, seed)
+    return chk.finish()
 
 
 @reg("C11")
@@ -198,7 +201,7 @@ def merge_jobs(jobs, key=lambda n: "-".join(n.split("-")[:2]), driver="aes", pre
     return [{"name": k, "behaviours": v, "driver": driver, "prelude": prelude} for k, v in sorted(merged.items())]
 
 
-def aes_check(pid, tier, seed, replay, make_jobs, rule, level="model_checking", props=None, model=None, prelude=""):
+def aes_check(pid, tier, seed, replay, make_jobs, rule=None, level="model_checking", props=None, model=None, prelude=""):
     chk = verif.Check(pid, level, tier, seed)
     props = props or {pid}
     exe = build.build_driver("aes", AES_SRCS)
@@ -239,7 +242,7 @@ def check_c02(tier, seed, replay=None, selftest=False):
 def check_c07(tier, seed, replay=None, selftest=False):
     def mk(rng, tier):
         return merge_jobs(gen_aes.gcm_stream_jobs(rng, 10 if tier == "quick" else 160))
-    return aes_check("C07", tier, seed, replay, mk,
+    return aes_check("C07", tier, seed, replay, mk, model=[("GcmCarry", "GcmCarry.cfg", 4, 300)], rule=
                      "one behaviour = init / update* / finalize on one stream; update lengths from the 16x(0..16,17,32,127..129,255..257) "
                      "carry table, sub-block runs that complete a block exactly, counter-wrap crossings, random compositions; nt streams "
                      "use 64-byte multiples on 64-aligned buffers; TLC checks each update's output against the key stream at the spec's "
@@ -286,6 +289,8 @@ def mh_check(pid, tier, seed, replay, make_jobs, rule, props=None):
         return chk.finish()
     rng = random.Random(seed * 15485863 + int(pid[1:]))
     jobs = make_jobs(rng, tier)
+    if pid in ("C05", "C10"):
+        model_check(chk, [("MhCarry", "MhCarry.cfg", 4, 300)])
     outs = run_jobs(jobs, exe, "TraceMh")
     nb, ne = collect(chk, outs, props | {"SPEC"}, marker="Mark")
     _finish_traces(chk, jobs, outs, nb, ne, rule)
@@ -976,3 +981,79 @@ def check_c18(tier, seed, replay=None, selftest=False):
     chk.cov["threaded_events_validated"] = thr_events
     chk.assumptions += ["thread schedules are whatever the OS produces (free-running); no instruction-level control here (C17 has it for the self-test word)"]
     return chk.finish()
+
+
+# ------------------------------------------------------------------------------------------ HashImpl <-> code (lane level)
+LANE_MODEL_FAMS = {"sse", "avx", "avx2", "avx512", "sse_ni"}       # avx512_ni (SHA-NI x1/x2 below a threshold), base, sb_sse4: not modelled
+
+
+def lane_env(alg, fam, maxn):
+    return {"MAXN": str(maxn), "NLANES": str(gen_hash.lanes(alg, fam)), "BLOCK": str(gen_hash.BLOCK[alg]), "LENF": str(gen_hash.LENF[alg])}
+
+
+def tlc_hash_behaviours(nlanes, num, seed):
+    """behaviours drawn by TLC's simulator from HashImplSim: list of [(kind, ctx, flags, toy length, predicted return)]"""
+    rc, out, dt = verif.tlc("HashImplSim", cfg="HashImplSim_%d.cfg" % nlanes, workers=4, timeout=300,
+                            simulate="num=%d" % num, extra=["-depth", "26", "-seed", str(seed)])
+    res = []
+    for line in out.splitlines():
+        if line.startswith("\"BEH "):
+            try:
+                res.append(json.loads(json.loads(line)[4:])["h"])
+            except Exception:
+                pass
+    return res
+
+
+def toy_to_real(n, alg):
+    B, P = gen_hash.BLOCK[alg], gen_hash.LENF[alg]
+    return (n // 4) * B + [0, 1, B - P - 1, B - P][n % 4]
+
+
+def lane_level(chk, exe, tier, seed):
+    """(a) TLC-simulated HashImpl behaviours replayed on real families with the same lane count; (b) random histories;
+    both validated against HashImpl with the family's real parameters. Differences are MODEL-DRIFT."""
+    rng = random.Random(seed + 99)
+    jobs = []
+    nsim = 6 if tier == "quick" else 150
+    for nl, combos in ((2, [("sha512", "sse"), ("sha512", "avx"), ("sha1", "sse_ni"), ("sha256", "sse_ni")]),
+                       (4, [("sha1", "sse"), ("sha256", "avx"), ("sha512", "avx2"), ("sha1", "avx")])):
+        hs = tlc_hash_behaviours(nl, nsim, seed)
+        nctx = 3 if nl == 2 else 5
+        for alg, fam in combos:
+            bs = []
+            for h in hs:
+                b = ["hmgr %s %s %d" % (alg, fam, nctx)]
+                bid = rng.randrange(2, 1 << 20)
+                for kind, c, f, n, ret in h:
+                    if kind == "s":
+                        b.append("hsub %d %d %d %d %d e" % (c, f, bid + c, rng.randrange(1 << 18), toy_to_real(n, alg)))
+                    else:
+                        b.append("hflush")
+                b += ["hdrain 10", "hend"]
+                bs.append(b)
+            if bs:
+                j = hash_job("lane-sim-%s-%s" % (alg, fam), bs)
+                j["env"] = lane_env(alg, fam, nctx)
+                jobs.append(j)
+    chk.cov["tlc_generated_behaviours_replayed"] = sum(len(j["behaviours"]) for j in jobs)
+    for alg in gen_hash.FAMS:
+        for fam in gen_hash.FAMS[alg]:
+            if fam in LANE_MODEL_FAMS:
+                bs = [gen_hash.random_behaviour(rng, alg, fam, with_rejects=0.1) for _ in range(4 if tier == "quick" else 30)]
+                bs = [b for b in bs if int(b[0].split()[3]) <= 20][:2 if tier == "quick" else 30]
+                if bs:
+                    j = hash_job("lane-%s-%s" % (alg, fam), bs)
+                    j["env"] = lane_env(alg, fam, int(j["env"]["MAXN"]))
+                    jobs.append(j)
+    outs = run_jobs(jobs, exe, "TraceHashImpl")
+    n = 0
+    for o in outs:
+        n += o["result"]["events"]
+        for v in o["result"]["viol"]:
+            if v["p"] == "DRIFT":
+                chk.drift.append("%s %s %s" % (o["job"]["name"], v["what"], json.dumps(v["info"])[:120]))
+    chk.cov["lane_level_events_validated_against_HashImpl"] = n
+    # the simulated behaviours must also satisfy the verdict spec
+    vouts = run_jobs([j for j in jobs if j["name"].startswith("lane-sim")], exe, "TraceHash")
+    collect(chk, vouts, {chk.prop})
